@@ -56,6 +56,21 @@ def check(run):
     for ctor in ("maps.Slice", "sync2.Slice", "maps.Keys", "sync2.Keys", "maps.Values", "sync2.Values"):
         for vals in [[], [1], [2, 2], [1, 2, 3], [3, 1, 3, 1], [2, 2, 2, 1]]:
             plan.append(dict(nu=nu, op="Ctor", ctor=ctor, vals=vals, px=1, py=1, same=False))
+    # larger universes: operands of very different sizes (walk-the-smaller-operand shortcuts), disjoint, nested, equal, empty
+    for nu2 in ((9, 40, 300) if q else (9, 40, 300, 1500)):
+        U2 = list(range(1, nu2 + 1))
+        half = run.rng.sample(U2, nu2 // 2)
+        subs = [[], [1], [nu2], U2, U2[::2], U2[1::2], U2[: nu2 // 3], U2[-(nu2 // 3):], sorted(half), sorted(run.rng.sample(U2, nu2 // 2)),
+                sorted(run.rng.sample(U2, 3)), U2[:-1]]
+        ops2 = [dict(kind=k, init=sub, hist=[]) for k in ("maps", "sync2") for sub in subs]
+        ops2 += [dict(kind="sync2", init=U2, hist=[dict(op="Remove", k=v) for v in U2[: nu2 // 2]] + [dict(op="Len", k=0)] + [dict(op="Add", k=nu2)])]
+        pairs2 = [(a, b) for a in ops2 for b in ops2]
+        for a, b in (pairs2 if not q and nu2 <= 300 else run.rng.sample(pairs2, 90 if nu2 <= 40 else 45)):
+            for op in run.rng.sample(BIN[:-1], 3):
+                plan.append(dict(nu=nu2, a=a, b=b, same=False, op=op, px=run.rng.choice(U2), py=run.rng.choice(U2)))
+        for a in ops2[:4]:
+            plan.append(dict(nu=nu2, a=a, b=a, same=True, op="Union", px=1, py=2))
+            plan.append(dict(nu=nu2, a=a, b=a, same=True, op="SymDiff", px=1, py=2))
     evs = run_driver(run, "sets", plan, timeout=3000)
     if len(evs) != len(plan):
         raise Inconclusive("driver returned %d events for %d scenarios" % (len(evs), len(plan)))
@@ -66,7 +81,8 @@ def check(run):
                    rule="scenario = (operand A, operand B, operation); operands = every subset of {1,2,3} as a map-backed set, as a concurrent "
                         "set built by NewSetFromSlice, and one concurrent set per distinct internal layout reachable by <= %d Add/Remove/Has/Len "
                         "calls (%d layouts); every ordered pair incl. A = B as the same object (quick: 1500 sampled pairs x 4 operations); "
-                        "plus Range with every stop index and every constructor" % (L, len(lay)))
+                        "plus Range with every stop index and every constructor; plus universes of 9, 40, 300 (thorough 1500) values with "
+                        "empty / singleton / full / half / third / 3-element operands in both implementations (sampled pairs x 3 operations)" % (L, len(lay)))
     e0 = evs[len(evs) // 2]
     run.cov["samples"] = [{k: e0[k] for k in ("op", "same", "a", "b", "rv", "px", "py")}, {"a0": e0["a0"], "b0": e0["b0"], "r1": e0["r1"]}]
     run.assumptions += ["value type int, universe {1,2,3}", "String() checked only for sets with at most one member (enumeration order is free)"]
